@@ -19,7 +19,6 @@ pub const F12_TAG: &str = "combined-ed25519-signer+valid-secp256k1-entry";
 
 pub trait DynOwner {
     fn backend(&self) -> Backend;
-    fn key_specs(&self) -> Vec<KeySpec>;
     fn build(&mut self, calls: &[BCall], slot: u8, reuse: Option<u8>, cx: &mut Cx);
     fn op(&mut self, op: &Op, slot: u8, cx: &mut Cx);
     fn arm(&mut self, slot: u8, nth: u64);
@@ -50,7 +49,6 @@ pub struct Owner<K: BaseKey> {
     pub view: Option<View>,
     pub ended: bool,
     pub pool: Vec<(String, Enr<Faulty<K>>)>,
-    pub total_fired: u64,
 }
 
 pub fn seq_class(s: u64) -> &'static str {
@@ -127,7 +125,6 @@ impl<K: BaseKey> Owner<K> {
             view: None,
             ended: false,
             pool: Vec::new(),
-            total_fired: 0,
         })
     }
 
@@ -316,9 +313,6 @@ impl<K: BaseKey> DynOwner for Owner<K> {
     fn backend(&self) -> Backend {
         self.backend
     }
-    fn key_specs(&self) -> Vec<KeySpec> {
-        self.keys.iter().map(|(s, _)| *s).collect()
-    }
     fn has_record(&self) -> bool {
         self.rec.is_some()
     }
@@ -421,7 +415,7 @@ impl<K: BaseKey> DynOwner for Owner<K> {
                             format!("{calls:?}")));
                     }
                 } else {
-                    cx.stat("unjudged:build");
+                    cx.stat(&format!("unjudged:build:{}", pred.why_unjudged));
                 }
             }
             Ok(Ok(rec)) => {
